@@ -183,12 +183,12 @@ PROPS["C18"] = dict(
 
 PROPS["C05"] = dict(
     level="proof",
-    verus=["c05_optimizer", "c05_grouping", "c04_partition", "c02_regex"],
-    labels=["C05.", "C02.regex."] + MASK,
+    verus=["c05_optimizer", "c05_grouping", "c09_list_optimize", "c04_partition", "c02_regex"],
+    labels=["C05.", "C02.regex.", "C09.list_optimize."] + MASK,
     kani=[],
     trusted=["core::fmt: for a fixed format string the key is an injective function of the formatted arguments (R6 lift of format!)",
              "Iterator::any/all over a slice (vf_iter shim)", "raw_line join (debug text only)",
-             "NetworkFilterList::optimize bucket rewrite (Arc::try_unwrap / drain) is not under contract",
+             "NetworkFilterList::optimize bucket rewrite: unit c09_list_optimize (drain / Arc::try_unwrap / collect lifted, R5/R6)",
              "apply_optimisation (unit c05_grouping): itertools partition_map = the two order-preserving halves, insert_dup = append under the key, HashMap::into_iter = the entries each once (R5 lifts); generic parameter specialised to SimplePatternGroup (R3); select / key / fusion enter as the abstract contracts of unit c05_optimizer",
              "any-of law of the matcher for fused patterns: the plain/anchored matchers test `any` pattern (unit c02_matchers) and a fused regex is the regex set of exactly the members' translations (unit c02_regex); the lemma joining them is not mechanised"],
     assumptions=[],
@@ -196,7 +196,7 @@ PROPS["C05"] = dict(
                "(self-composition of the real key expression), that fusion keeps every non-pattern field of the first member, sets the regex bits to the disjunction and carries exactly the members' patterns, "
                "that apply_optimisation fuses exactly the key groups of several selected rules, each into one rule built from that whole group, and returns every other rule unchanged (none lost, none both fused and kept), "
                "and that the removeparam list is never optimised",
-    level_note="the per-bucket rewrite in NetworkFilterList::optimize is trusted; fuse-equivalence relies on the matcher's any-of law",
+    level_note="fuse-equivalence relies on the matcher's any-of law, which is not mechanised as one lemma",
     design_ref="DESIGN.md section 4, C05",
 )
 
@@ -268,14 +268,15 @@ PROPS["C08"] = dict(
 
 PROPS["C09"] = dict(
     level="proof",
-    verus=["c09_order", "c08_shape", "c08_wiring"],
-    labels=["C09.", "C08.from_wire.", "C08.to_wire.", "C08.shape."] + MASK,
+    verus=["c09_order", "c09_list_optimize", "c05_grouping", "c08_shape", "c08_wiring"],
+    labels=["C09.", "C08.from_wire.", "C08.to_wire.", "C08.shape.", "C05.grouping."] + MASK,
     kani=[],
-    trusted=["slice::sort_by_key sorts by the key and permutes (R6 lift)", "apply_optimisation regroups through a HashMap (uninterpreted)",
+    trusted=["slice::sort_by_key sorts by the key and permutes (R6 lift)", "apply_optimisation (unit c05_grouping) regroups through a HashMap whose iteration order is arbitrary: its contract is order-free (which groups are fused, what is kept)",
+             "NetworkFilterList::optimize (unit c09_list_optimize): HashMap::drain = every entry once in some order, Arc::try_unwrap = taken out iff not shared, into_iter().map(Arc::new).collect() = element-wise (R5/R6 lifts); optimizer::optimize enters as an uninterpreted function of the rules handed in",
              "insert_dup keeps buckets sorted by id (Entry API + binary_search_by closure: outside the subset) - NOT under contract",
              "stabilize_hash{set,map}_serialization (BTreeMap / serde generics), unseeded seahash, rmp encoding: dependencies"],
     assumptions=[],
-    level_text="Verus proves that the rules of a bucket are re-sorted by id after fusion whatever the regrouping order was, and (computed from the struct text each run) that every HashMap/HashSet field that is serialized carries a stabilize_* ordered-view serializer",
+    level_text="Verus proves that the rules of a bucket are re-sorted by id after fusion whatever the regrouping order was, that NetworkFilterList::optimize rewrites every bucket as a function of that bucket alone (own rules optimised, shared rules appended in order; same keys) whatever order the map hands the buckets out in, and (computed from the struct text each run) that every HashMap/HashSet field that is serialized carries a stabilize_* ordered-view serializer",
     level_note="partial: byte-level determinism across processes and the reload fixpoint depend on serde/rmp/BTreeMap behaviour, which no contract here can reach",
     design_ref="DESIGN.md section 4, C09",
 )
